@@ -18,7 +18,10 @@ trailing junk compare equal in one order only;
 Rdata::components yields embedded names and Rdata::read decompresses (the pre-RFC 3597 name-bearing types), and plain
 octet comparison for everything else;
 (c) RdataSetOwned::insert compares the candidate with every existing member through Rdata::equals under the set's class
-and type, returns false without touching the buffer on a match, and otherwise appends at the end.
+and type, returns false without touching the buffer on a match, and otherwise appends at the end;
+(d) that scan sees every stored member: the member iterator (<rdata_set::Iter as Iterator>::next) returns None only when
+fewer than two octets remain or the declared length does not fit -- decided at every None return from the facts in
+force there, including the failure postconditions of slice::get / try_into on that path (linear engine with cases).
 (shared) octet-level ASCII case folding (eq_ignore_ascii_case, to/make_ascii_lowercase on octets) is called only from the
 name-label code: RDATA outside embedded names is compared octet for octet.
 Not decided: reflexivity / transitivity over arbitrary octets.
